@@ -17,8 +17,11 @@ ASSUMPTIONS = ["registry operations are atomic under Server.mu (trusted), so seq
 COQ_FILES = ["Model/Server.v", "Spec/ServerSpec.v", "Proofs/ServerProofs.v", "Props/C20.v"]
 
 
+FAM = {0: 0, 1: 4, 2: 6, 3: 6}      # 3 = IPv4-mapped IPv6: an IPv6 address to netip
+
+
 def usable(kr, las, ras, kl, hold, port):
-    return kr != 0 and (kl == 0 or kl == kr) and las != 0 and ras != 0 and (hold == 0 or hold >= 3) and 1 <= port <= 65535
+    return kr != 0 and (kl == 0 or FAM[kl] == FAM[kr]) and las != 0 and ras != 0 and (hold == 0 or hold >= 3) and 1 <= port <= 65535
 
 
 def py_registry(case, out):
@@ -151,8 +154,8 @@ def cases(rng, tier):
         cs.append(Case(40, ops, [], "registry.directed"))
     # validation grid
     grid = 0
-    for kr in (0, 1, 2):
-        for kl in (0, 1, 2):
+    for kr in (0, 1, 2, 3):
+        for kl in (0, 1, 2, 3):
             for las in (0, 1, 4294967295):
                 for ras in (0, 65000):
                     for hold in (0, 1, 2, 3, 4, 65535):
@@ -162,8 +165,9 @@ def cases(rng, tier):
                                 continue
                             grid += 1
                             cs.append(Case(42, [kr, 7, las, ras, kl, 9, hold, 100000 + port, rng.randint(0, 1)], [], "validate.grid"))
-    for k in (0, 1, 2):
-        cs.append(Case(44, [k, rng.randint(1, 1000)], [], "new_server"))
+    for k in (0, 1, 2, 3):
+        for _ in range(3):
+            cs.append(Case(44, [k, rng.randint(1, 1000)], [], "new_server"))
     return cs
 
 
